@@ -59,7 +59,7 @@ def run_case(case):
         return pipeline.screened_result(desc, realised, reasons)
     res = {"counters": {}, "maxima": {}, "violations": [], "features": {}, "nontrivial": False}
     N = case["agents"]
-    init = gen.gen_initial_states(rng, ref, N)
+    init = gen.gen_initial_states(rng, ref, N, int_cont=0.4 if case["index"] % 4 == 2 else 0.0)
     mon = simcheck.Monitors().install()
     try:
         try:
